@@ -1116,7 +1116,80 @@ fn client_library_boundedness(ctx: &Ctx, agg: &mut Agg) -> Value {
             }
         }
     }
-    json!({"kind": "directed (each situation once per library, virtual clock standing still)", "situations": situations.len(), "c_library": c_note, "results": results})
+    // the same, counted: three million consecutive calls by one long-lived client in the situations in which a
+    // call answers from its cache (what a client polling at 1 kHz makes in under an hour of daemon outage)
+    let many: i64 = 3_000_000;
+    for (name, what) in [("update left in flight by a dead daemon", "begin-update"), ("segment wiped by a daemon that died before re-initialising it", "wipe"), ("nothing published since the last call", "none")] {
+        let path = dir.join(format!("many-{what}"));
+        let r = run_with_timeout(120, || {
+            use clock_bound_shm::ShmReader;
+            let _ = std::fs::remove_file(&path);
+            let mut w = ShmWriter::new(&path).expect("writer");
+            w.write(&rec0.to_ceb());
+            let cpath = std::ffi::CString::new(path.to_str().unwrap()).unwrap();
+            let mut rd = ShmReader::new(&cpath).expect("reader");
+            let mut cl = ClockBoundClient::new_with_path(path.to_str().unwrap()).expect("client");
+            vclock::arm(VClock { real_ns, mono_ns: 5001 * S, auto_advance_ns: 0, fail_errno: 0, fail_clock: -1 });
+            let _ = rd.snapshot();
+            let _ = cl.now();
+            if let Err(e) = mutate(what, &path, &mut w) {
+                return json!({"setup": e});
+            }
+            let mut ok = 0i64;
+            for _ in 0..many {
+                if rd.snapshot().is_ok() {
+                    ok += 1;
+                }
+            }
+            let mut ok2 = 0i64;
+            for _ in 0..many {
+                if cl.now().is_ok() {
+                    ok2 += 1;
+                }
+            }
+            vclock::disarm();
+            json!({"reader_calls_ok": ok, "client_calls_ok": ok2})
+        });
+        match r {
+            Ok(v) => results.push(json!({"library": "Rust reader and client", "situation": format!("{many} consecutive calls: {name}"), "returned": v})),
+            Err(e) if e == "timeout" => {
+                agg.add("C18:client-library-call-does-not-return".into(), 0, format!("{many} consecutive snapshot() / now() calls by one client did not complete within 120 s of real time (one of them does not return) in the situation: {name}"), json!({"engine": "seqmc", "directed": "client library boundedness", "library": "Rust reader and client", "situation": format!("{many} consecutive calls: {name}"), "calls": []}));
+                results.push(json!({"library": "Rust reader and client", "situation": format!("{many} consecutive calls: {name}"), "returned": "NEVER"}));
+            }
+            Err(e) => machinery_failure(&format!("client-library phase, many calls, {name}: {e}")),
+        }
+        if let Ok(bin) = crate::gridmc::abi::build_c(ctx, false) {
+            let pathc = dir.join(format!("many-c-{what}"));
+            let _ = std::fs::remove_file(&pathc);
+            let mut w = ShmWriter::new(&pathc).expect("writer");
+            w.write(&rec0.to_ceb());
+            let mut c = match crate::gridmc::abi::start_c(&bin, "libclockbound.so") {
+                Ok(c) => c,
+                Err(e) => machinery_failure(&e),
+            };
+            let mut run = || -> Result<String, String> {
+                let o = c.ask(&format!("P 1 {}", pathc.display()))?;
+                if o != "open ok" {
+                    return Ok(o);
+                }
+                c.ask(&format!("Q 1 {} {} 5001 0", real_ns.div_euclid(S), real_ns.rem_euclid(S)))?;
+                mutate(what, &pathc, &mut w)?;
+                c.ask(&format!("L 1 {many} {} {} 5001 0", real_ns.div_euclid(S), real_ns.rem_euclid(S)))
+            };
+            match run() {
+                Ok(l) => results.push(json!({"library": "C library", "situation": format!("{many} consecutive calls: {name}"), "returned": l})),
+                Err(e) if e.contains("did not return within") => {
+                    agg.add("C18:client-library-call-does-not-return".into(), 0, format!("{e}, in the situation: {many} consecutive calls, {name}"), json!({"engine": "seqmc", "directed": "client library boundedness", "library": "C library", "situation": format!("{many} consecutive calls: {name}"), "calls": []}));
+                    results.push(json!({"library": "C library", "situation": format!("{many} consecutive calls: {name}"), "returned": "NEVER"}));
+                }
+                Err(e) => machinery_failure(&format!("client-library phase (C), many calls, {name}: {e}")),
+            }
+            c.finish();
+            drop(w);
+            close_leaked_fds(&pathc);
+        }
+    }
+    json!({"kind": "directed (each situation once per library, virtual clock standing still)", "situations": situations.len(), "consecutive_calls_per_counted_situation": many, "c_library": c_note, "results": results})
 }
 
 // ---------------------------------------------------------------------------------------------
